@@ -33,7 +33,8 @@ def runNextRet (c : Case) : String := s!"res {c.id} early=0 delivered=1 order=ok
 
 /-- `kind=ctxpair` (C09, time-driven and hand-off operators; go/harness/ctxpair.go): every delivered notification carries the
     context it was sent with — the queues of `Delay`, `detachOn` (ObserveOn / SubscribeOn) and the stored value of
-    `SampleTime` hold (context, notification) pairs, never a context apart from its notification. -/
+    `SampleTime` hold (context, notification) pairs, never a context apart from its notification (for Delay: RoProps/C09.delay_keeps_context,
+    delay_kth over the pop sequence of the timed model; witness of the other design: Timed.timerCtx_witness). -/
 def runCtxPair (c : Case) : String := s!"res {c.id} bad=0 term=ok"
 
 /-- `kind=lateuse` (C12; go/harness/lateuse.go): the time between building a pipeline and subscribing to it (or between two
